@@ -2,6 +2,7 @@
 the L1 model comparison (Cache/Logical.v) and the model-free monitors for C03/C05/C08/C09/C14."""
 import datetime as dt
 import re
+import time
 import threading
 
 import core
@@ -288,7 +289,16 @@ class World:
         return utd, ood_any
 
     def fresh_dt(self, fresh):
-        return None if fresh is None else EPOCH + dt.timedelta(seconds=fresh)
+        """the instant `fresh` seconds after EPOCH as naive local time or, equally often, as an
+        aware datetime in some other zone: the same instant, so the same decisions (C18)"""
+        if fresh is None:
+            return None
+        naive = EPOCH + dt.timedelta(seconds=fresh)
+        form = self.rng.randrange(4)
+        if form < 2:
+            return naive
+        off = dt.timedelta(minutes=self.rng.choice([-480, -210, 60, 330, 765]))
+        return naive.astimezone().astimezone(dt.timezone(off))       # naive is read as local time
 
     def run(self, output, fresh, workers=None, scheduler=None, max_errors=0, dry_run=False, fault_at=None, transform=None, fault_hard=False, _hard=False):
         self.log = []
